@@ -924,6 +924,10 @@ class BaseInterpreter(Generic[TContext, TEvent]):
                 if machine.get_state_by_id(nid)
             ]
             if nodes:
+                # 🔀 Same order `_record_history` uses: the list order is the
+                #    order in which the states are re-entered on restore, and
+                #    the snapshot stores the ids sorted alphabetically.
+                nodes.sort(key=lambda n: (n.depth, n.id))
                 interpreter._history[parent_id] = nodes
 
         # 👶 Restore child actors. Their machine definitions are resolved from
